@@ -748,7 +748,7 @@ Lemma nvar_assemble_id pol size next attrs guid gidx name type off nextoff datao
   size = 10 + zlen gp + zlen content -> size < 2 ^ 16 ->
   nvar_assemble enc16 pol v content true = Ok v.
 Proof.
-  intros v Vt W3 Hn G Hd Hsz Hlt.
+  intros v Vt W3 Hn G Hd Hsz Hlt. subst v.
   rewrite nvar_assemble_unfold.
   unfold is_valid. cbn [v_type v_nextoff v_off v_size v_attrs v_guid v_gidx v_name v_dataoff v_ext v_sub].
   rewrite Vt. cbn [negb]. rewrite andb_false_r. rewrite G. cbn [bind]. rewrite W3.
@@ -760,7 +760,7 @@ Proof.
     by (rewrite zlen_app, Lp; lia).
   pose proof (zlen_nonneg gp). pose proof (zlen_nonneg content).
   rewrite La, Z.mod_small, Z.eqb_refl by lia. cbn [negb andb].
-  rewrite le_dec_enc3 by lia. unfold v. rewrite <- app_assoc. reflexivity.
+  rewrite le_dec_enc3 by lia. rewrite <- app_assoc. reflexivity.
 Qed.
 
 Lemma asm_nvar_id pol d' size next attrs guid gidx name type off nextoff dataoff ext gp content :
@@ -773,11 +773,12 @@ Lemma asm_nvar_id pol d' size next attrs guid gidx name type off nextoff dataoff
   size = 10 + zlen gp + zlen content -> size < 2 ^ 16 ->
   asm_nvar pol d' v = Ok v.
 Proof.
-  intros v Vt W3 Hn G Hd Hsz Hlt.
-  unfold asm_nvar. cbn [v_sub bind set_sub]. fold v.
+  intros v Vt W3 Hn G Hd Hsz Hlt. subst v.
+  unfold asm_nvar. cbn [v_sub bind set_sub].
   unfold is_valid. cbn [v_type]. rewrite Vt.
+  match goal with |- context [slice (v_dataoff ?x) _ _] => set (v := x) in * end.
   assert (S3 : slice (v_dataoff v) (zlen (v_buf v)) (v_buf v) = Some content).
-  { cbn [v_dataoff v_buf]. rewrite app_assoc.
+  { unfold v. cbn [v_dataoff v_buf]. rewrite app_assoc.
     assert (Lp : zlen (emit_header size next attrs ++ gp) = dataoff)
       by (rewrite zlen_app, zlen_emit_header; lia).
     rewrite <- Lp. rewrite zlen_app. apply slice_suffix. }
